@@ -24,6 +24,7 @@ func init() {
 }
 
 func ruleCharUnit(c *Ctx) {
+	runesRoundTrip(c)
 	fns := c.srcFuncs("interp")
 	// blocks dominated by `chars` being true
 	type region struct {
@@ -142,4 +143,62 @@ func ruleCharUnit(c *Ctx) {
 	if len(idx) == 0 {
 		c.ok("charunit:decoder", token.NoPos, "character-mode code (%d functions, helpers %s) decodes only with range/unicode/utf8 (%d uses); no string is indexed by byte there", nRegions, strings.Join(hn, ", "), nDecoders)
 	}
+}
+
+// runesRoundTrip (part of R-CHARUNIT, C10): a subject string is never rebuilt from its runes. Converting a string to
+// []rune and (a part of) that back to a string re-encodes it: every byte that is not valid UTF-8 comes back as U+FFFD
+// (three other bytes), so a substring is no longer made of bytes of its subject and substr(s,1,m-1) substr(s,m) != s.
+// The character-mode helpers index the original string by byte offsets found while decoding. Expected count: zero
+// (the seeded change C10-m13 is the positive example replayed by the thorough tier).
+func runesRoundTrip(c *Ctx) {
+	isRunes := func(t types.Type) bool {
+		sl, ok := t.Underlying().(*types.Slice)
+		if !ok {
+			return false
+		}
+		b, ok := sl.Elem().Underlying().(*types.Basic)
+		return ok && b.Kind() == types.Int32
+	}
+	isString := func(t types.Type) bool {
+		b, ok := t.Underlying().(*types.Basic)
+		return ok && b.Kind() == types.String
+	}
+	nFn := 0
+	for _, fn := range c.srcFuncs("interp") {
+		fn := fn
+		nFn++
+		allInstrs(fn, func(in ssa.Instruction) {
+			back, ok := in.(*ssa.Convert)
+			if !ok || !isString(back.Type()) || !isRunes(back.X.Type()) {
+				return
+			}
+			// does the rune slice come from a string?
+			fromString := false
+			seen := map[ssa.Value]bool{}
+			var walk func(v ssa.Value, d int)
+			walk = func(v ssa.Value, d int) {
+				if v == nil || seen[v] || d > 6 {
+					return
+				}
+				seen[v] = true
+				switch x := v.(type) {
+				case *ssa.Convert:
+					if isString(x.X.Type()) && isRunes(x.Type()) {
+						fromString = true
+					}
+				case *ssa.Slice:
+					walk(x.X, d+1)
+				case *ssa.Phi:
+					for _, e := range x.Edges {
+						walk(e, d+1)
+					}
+				}
+			}
+			walk(back.X, 0)
+			if fromString {
+				c.bad("runes:roundtrip:"+fnKey(fn), in.Pos(), "%s converts a string to runes and (part of) them back to a string: every byte of the subject that is not valid UTF-8 is replaced by U+FFFD, so in character mode the result is no longer made of bytes of its subject (substr(s,1,m-1) substr(s,m) differs from s, and from what the three-argument form and match() give)", fnKey(fn))
+			}
+		})
+	}
+	c.atLeast("functions scanned for a string->runes->string round trip", nFn, 50)
 }
